@@ -36,7 +36,7 @@ metas = [m for m in sorted(glob.glob(os.path.join(VERIF, 'seeded', '*', 'meta.js
          if not want or os.path.basename(os.path.dirname(m)) in want]
 with ThreadPoolExecutor(int(os.environ.get('JOBS', '4'))) as ex:
     for sid, meta, res in ex.map(one, metas):
-        line = ' '.join(f'{p}:{rc}' for p, (rc, _) in res.items() if p != 'patch') or str(res)
+        line = ' '.join(f'{p}:{v[0]}' for p, v in res.items() if p != 'patch') or str(res)
         print(sid, 'breaks', meta['breaks_property'], 'recorded', meta['checks']['verdict'], '|', line)
         for p, v in res.items():
             if p != 'patch' and v[1]:
